@@ -164,6 +164,7 @@ def impl_record(sc, envF, envP, st, a, uval, frame_log):
     return rec, ns, info
 
 
+ORIG_RAND = np.random.mtrand._rand.rand          # NumPy's global generator, whatever np.random.rand has been replaced by
 REVISIT = 4
 ARBITRARY = 6
 PARAM_STATES = 5
@@ -315,8 +316,12 @@ def walk(sc, rng, length, res):
     if getattr(sc, "_bench", None) is not None:
         # benchmark scenarios: the eight environments come from the package's top-level entry point, flags and all
         import nasim
-        envs = {m: nasim.make_benchmark(sc._bench[0], sc._bench[1], fully_obs=m[0], flat_actions=m[1], flat_obs=m[2])
-                for m in modes}
+        np.random.rand = ORIG_RAND           # a generated benchmark is generated again here: with NumPy's own generator
+        try:
+            envs = {m: nasim.make_benchmark(sc._bench[0], sc._bench[1], fully_obs=m[0], flat_actions=m[1], flat_obs=m[2])
+                    for m in modes}
+        finally:
+            np.random.rand = DR
     else:
         envs = {m: NASimEnv(sc, fully_obs=m[0], flat_actions=m[1], flat_obs=m[2]) for m in modes}
     ref = envs[(True, True, False)]
@@ -461,7 +466,7 @@ def walk(sc, rng, length, res):
 
 def run_scenario(args):
     seed, idx, max_states, walk_len, kind = args
-    np.random.rand = DR
+    np.random.rand = ORIG_RAND               # scenarios are generated with NumPy's own generator ...
     rng = random.Random(f"{seed}-{idx}-{kind}")
     res = dict(idx=idx, transitions=0, states=0, walk_ops=0, mismatches=[], frame_violations=[],
                cross_mode=[], outcomes=collections.Counter(), untranslatable=0, shape=None,
@@ -478,6 +483,7 @@ def run_scenario(args):
                 res["entry_points"] = (C.entry_point_flags(lambda **kw: nasim.load(ypath, **kw), "nasim.load")
                                        + C.entry_point_flags(lambda **kw: nasim.generate(5, 2, seed=1, **kw), "nasim.generate")
                                        + C.gym_registrations())
+        np.random.rand = DR                  # ... and stepped with the draw under the harness' control
         res["shape"] = getattr(sc, "_shape", kind)
         res["hosts"] = len(sc.hosts)
         lines = C.scenario_lines(sc)
